@@ -96,6 +96,22 @@ def main():
                 owner.append(i)
             for k in range(ob["nops"]):
                 fault_cases.append(dict({kk: o[kk] for kk in o if kk not in ("obs", "dump")}, mode="fault", fault=k))
+    # (3b) the same, over a destination that already holds ANOTHER complete file (a Write + Seek destination need not be empty): an
+    #      accepted crash image serves exactly the new file or still exactly the old one, never a mixture of the two
+    small = [c for c in lay if not c.get("big")]
+    stale_rec = []
+    for i, c in enumerate(small):
+        other = next((d for d in small[i + 1:] + small[:i] if d["kind"] == c["kind"] and d["chroms"] == c["chroms"] and d["items"] != c["items"]), None)
+        if other is not None and i % 2 == 0:
+            stale_rec.append(dict(c, mode="record", stale=1, stale_items=other["items"]))
+    sobs = run_harness("sink", stale_rec, run.wd, hang_timeout=30, shards=8)
+    for o in sobs:
+        o.pop("case", None)
+        ob = o["obs"]
+        lines.append(json.dumps({"mode": "record", "stale": 1, "obs": {k: ob.get(k) for k in ("result", "full", "prefixes", "stale")}}, separators=(",", ":")))
+        run.count_case(json.dumps(["stale", o["kind"], o["items"][:50], o["stale_items"][:50], o["opts"]]), True)
+    obs_stale_n = len(sobs)
+    run.cov["crash_images_over_an_older_complete_file"] = sum(len(o["obs"].get("prefixes", [])) for o in sobs)
     run.cov["sink_operations_recorded"] = len(tr_lines) - len(obs)
     # (2) trace validation of the op logs
     path = os.path.join(run.wd, "sink_trace.ndjson")
@@ -144,7 +160,7 @@ def main():
             continue
         lines.append(json.dumps({"mode": "fault", "obs": o["obs"]}, separators=(",", ":")))
         run.count_case(json.dumps([o["kind"], o["items"][:50], len(o["items"]), o["opts"], o["fault"]]), True)
-    allobs = obs + robs + [o for o in fobs if o["obs"].get("result") != "skipped"]
+    allobs = obs + sobs + robs + [o for o in fobs if o["obs"].get("result") != "skipped"]
     bad = validate_obs("Obs_Sink", "Obs.cfg", lines, run.wd, "obs")
     run.cov["traces_validated_against_impl"] += len(fobs)
     run.cov["crash_prefixes_reopened"] = sum(len(o["obs"].get("prefixes", [])) for o in obs)
